@@ -1,4 +1,8 @@
-//! C11 harness: CompactOrderedHashMap op sequences (stream `cmap`).
+//! C11 harness.
+//!   cmap   CompactOrderedHashMap op sequences
+//!   state  the state model on top of it: configured features + traversal/access model features + query
+//!          overrides through the real collect_features / StateModel::extend / SearchApp::build_search_instance,
+//!          then get/set/add sequences on the resulting state vector (module `state` at the end of this file)
 use routee_compass_core::util::compact_ordered_hash_map::CompactOrderedHashMap;
 use serde_json::json;
 use verif_harness::*;
@@ -134,6 +138,10 @@ fn distinct_pairs(rng: &mut Rng, n: usize) -> Vec<(i64, i64)> {
 fn main() {
     silence_panics();
     let a = parse_args();
+    if a.stream == "state" {
+        state::main(a);
+        return;
+    }
     let header = "From Coq Require Import ZArith List String.\nFrom RC Require Import Base.Show Model.CompactMap Model.CompactMapRun.\nImport ListNotations.\nOpen Scope Z_scope.";
     let mut st = Stream::new(&a.out, "cmap", header, a.shards);
     if let Some(p) = &a.replay {
@@ -205,5 +213,1111 @@ fn parse_ctor(s: &str) -> Ctor {
         Ctor::New(nums(&s[3..]))
     } else {
         Ctor::FromIter(nums(&s[8..]))
+    }
+}
+
+// =====================================================================================================
+// stream `state`
+// =====================================================================================================
+mod state {
+    use routee_compass::app::compass::config::cost_model::cost_model_service::CostModelService;
+    use routee_compass::app::search::search_app::SearchApp;
+    use routee_compass::app::search::search_app_ops::collect_features;
+    use routee_compass_core::algorithm::search::search_algorithm::SearchAlgorithm;
+    use routee_compass_core::algorithm::search::search_error::SearchError;
+    use routee_compass_core::model::access::access_model::AccessModel;
+    use routee_compass_core::model::access::access_model_error::AccessModelError;
+    use routee_compass_core::model::access::access_model_service::AccessModelService;
+    use routee_compass_core::model::cost::cost_aggregation::CostAggregation;
+    use routee_compass_core::model::frontier::default::no_restriction::NoRestriction;
+    use routee_compass_core::model::network::{Edge, Graph, Vertex};
+    use routee_compass_core::model::state::custom_feature_format::CustomFeatureFormat;
+    use routee_compass_core::model::state::state_feature::StateFeature;
+    use routee_compass_core::model::state::state_model::StateModel;
+    use routee_compass_core::model::state::state_model_error::StateModelError;
+    use routee_compass_core::model::termination::termination_model::TerminationModel;
+    use routee_compass_core::model::traversal::state::state_variable::StateVar;
+    use routee_compass_core::model::traversal::traversal_model::TraversalModel;
+    use routee_compass_core::model::traversal::traversal_model_error::TraversalModelError;
+    use routee_compass_core::model::traversal::traversal_model_service::TraversalModelService;
+    use routee_compass_core::model::unit::as_f64::AsF64;
+    use routee_compass_core::model::unit::*;
+    use serde_json::{json, Value};
+    use std::collections::HashMap;
+    use std::panic::AssertUnwindSafe;
+    use std::sync::Arc;
+    use verif_harness::*;
+
+    const DIST: [(DistanceUnit, &str); 5] = [
+        (DistanceUnit::Meters, "Meters"),
+        (DistanceUnit::Kilometers, "Kilometers"),
+        (DistanceUnit::Miles, "Miles"),
+        (DistanceUnit::Inches, "Inches"),
+        (DistanceUnit::Feet, "Feet"),
+    ];
+    const TIME: [(TimeUnit, &str); 4] =
+        [(TimeUnit::Hours, "Hours"), (TimeUnit::Minutes, "Minutes"), (TimeUnit::Seconds, "Seconds"), (TimeUnit::Milliseconds, "Milliseconds")];
+    const ENERGY: [(EnergyUnit, &str); 3] =
+        [(EnergyUnit::GallonsGasoline, "GallonsGasoline"), (EnergyUnit::GallonsDiesel, "GallonsDiesel"), (EnergyUnit::KilowattHours, "KilowattHours")];
+    const NAMES: [&str; 12] = [
+        "distance", "time", "energy_electric", "energy_liquid", "battery_state", "trip_distance", "trip_time", "leg_energy", "soc",
+        "flag", "count", "odo",
+    ];
+    const GHOST: &str = "ghost";
+
+    // ---------------------------------------------------------------- case description
+    #[derive(Clone, Debug, PartialEq)]
+    pub enum Fmt {
+        F(f64),
+        I(i64),
+        U(u64),
+        B(bool),
+    }
+    /// family 0 distance, 1 time, 2 energy (unit = index into the tables above), or a custom feature
+    #[derive(Clone, Debug, PartialEq)]
+    pub enum Feat {
+        Unit(usize, usize, f64),
+        Custom(String, String, Fmt),
+    }
+    #[derive(Clone, Debug)]
+    pub enum User {
+        None,
+        Bad(Value),
+        Some(Vec<(String, Feat)>),
+    }
+    #[derive(Clone, Debug)]
+    pub enum Op {
+        Get(String, usize, usize),
+        Set(String, usize, usize, f64),
+        Add(String, usize, usize, f64),
+        Rt(String, usize, usize, f64),
+        Ag(String, usize, usize, f64),
+        GetF(String),
+        GetI(String),
+        GetU(String),
+        GetB(String),
+        SetF(String, f64),
+        SetI(String, i64),
+        SetU(String, u64),
+        SetB(String, bool),
+    }
+    #[derive(Clone, Debug)]
+    pub struct Case {
+        cfg: Vec<(String, Feat)>,
+        tm: Vec<(String, Feat)>,
+        am: Vec<(String, Feat)>,
+        user: User,
+        ops: Vec<Op>,
+    }
+
+    // exact JSON form of a case (floats as bit patterns) for the description / replay
+    fn fj(x: f64) -> Value {
+        json!(format!("{:016x}", x.to_bits()))
+    }
+    fn jf(v: &Value) -> f64 {
+        f64::from_bits(u64::from_str_radix(v.as_str().unwrap(), 16).unwrap())
+    }
+    fn feat_json(f: &Feat) -> Value {
+        match f {
+            Feat::Unit(fam, u, x) => json!({"fam": fam, "u": u, "init": fj(*x), "dec": x}),
+            Feat::Custom(t, u, Fmt::F(x)) => json!({"ty": t, "unit": u, "f": fj(*x), "dec": x}),
+            Feat::Custom(t, u, Fmt::I(z)) => json!({"ty": t, "unit": u, "i": z}),
+            Feat::Custom(t, u, Fmt::U(z)) => json!({"ty": t, "unit": u, "u64": z}),
+            Feat::Custom(t, u, Fmt::B(b)) => json!({"ty": t, "unit": u, "b": b}),
+        }
+    }
+    fn feat_from(v: &Value) -> Feat {
+        if let Some(fam) = v.get("fam") {
+            return Feat::Unit(fam.as_u64().unwrap() as usize, v["u"].as_u64().unwrap() as usize, jf(&v["init"]));
+        }
+        let t = v["ty"].as_str().unwrap().to_string();
+        let u = v["unit"].as_str().unwrap().to_string();
+        let fm = if let Some(x) = v.get("f") {
+            Fmt::F(jf(x))
+        } else if let Some(z) = v.get("i") {
+            Fmt::I(z.as_i64().unwrap())
+        } else if let Some(z) = v.get("u64") {
+            Fmt::U(z.as_u64().unwrap())
+        } else {
+            Fmt::B(v["b"].as_bool().unwrap())
+        };
+        Feat::Custom(t, u, fm)
+    }
+    fn entries_json(l: &[(String, Feat)]) -> Value {
+        Value::Array(l.iter().map(|(n, f)| json!([n, feat_json(f)])).collect())
+    }
+    fn entries_from(v: &Value) -> Vec<(String, Feat)> {
+        v.as_array().unwrap().iter().map(|e| (e[0].as_str().unwrap().to_string(), feat_from(&e[1]))).collect()
+    }
+    fn op_json(o: &Op) -> Value {
+        match o {
+            Op::Get(n, f, u) => json!(["get", n, f, u]),
+            Op::Set(n, f, u, x) => json!(["set", n, f, u, fj(*x), x]),
+            Op::Add(n, f, u, x) => json!(["add", n, f, u, fj(*x), x]),
+            Op::Rt(n, f, u, x) => json!(["rt", n, f, u, fj(*x), x]),
+            Op::Ag(n, f, u, x) => json!(["ag", n, f, u, fj(*x), x]),
+            Op::GetF(n) => json!(["getf", n]),
+            Op::GetI(n) => json!(["geti", n]),
+            Op::GetU(n) => json!(["getu", n]),
+            Op::GetB(n) => json!(["getb", n]),
+            Op::SetF(n, x) => json!(["setf", n, fj(*x), x]),
+            Op::SetI(n, z) => json!(["seti", n, z]),
+            Op::SetU(n, z) => json!(["setu", n, z]),
+            Op::SetB(n, b) => json!(["setb", n, b]),
+        }
+    }
+    fn op_from(v: &Value) -> Op {
+        let n = v[1].as_str().unwrap().to_string();
+        let us = |i: usize| v[i].as_u64().unwrap() as usize;
+        match v[0].as_str().unwrap() {
+            "get" => Op::Get(n, us(2), us(3)),
+            "set" => Op::Set(n, us(2), us(3), jf(&v[4])),
+            "add" => Op::Add(n, us(2), us(3), jf(&v[4])),
+            "rt" => Op::Rt(n, us(2), us(3), jf(&v[4])),
+            "ag" => Op::Ag(n, us(2), us(3), jf(&v[4])),
+            "getf" => Op::GetF(n),
+            "geti" => Op::GetI(n),
+            "getu" => Op::GetU(n),
+            "getb" => Op::GetB(n),
+            "setf" => Op::SetF(n, jf(&v[2])),
+            "seti" => Op::SetI(n, v[2].as_i64().unwrap()),
+            "setu" => Op::SetU(n, v[2].as_u64().unwrap()),
+            _ => Op::SetB(n, v[2].as_bool().unwrap()),
+        }
+    }
+    fn case_json(c: &Case) -> Value {
+        json!({
+            "cfg": entries_json(&c.cfg), "tm": entries_json(&c.tm), "am": entries_json(&c.am),
+            "user": match &c.user { User::None => json!(null), User::Bad(v) => json!({"bad": v}), User::Some(l) => json!({"some": entries_json(l)}) },
+            "ops": Value::Array(c.ops.iter().map(op_json).collect()),
+        })
+    }
+    fn case_from(v: &Value) -> Case {
+        Case {
+            cfg: entries_from(&v["cfg"]),
+            tm: entries_from(&v["tm"]),
+            am: entries_from(&v["am"]),
+            user: if v["user"].is_null() {
+                User::None
+            } else if let Some(b) = v["user"].get("bad") {
+                User::Bad(b.clone())
+            } else {
+                User::Some(entries_from(&v["user"]["some"]))
+            },
+            ops: v["ops"].as_array().unwrap().iter().map(op_from).collect(),
+        }
+    }
+
+    // ---------------------------------------------------------------- Gallina terms
+    fn unit_ctor(fam: usize, u: usize) -> &'static str {
+        match fam {
+            0 => DIST[u].1,
+            1 => TIME[u].1,
+            _ => ENERGY[u].1,
+        }
+    }
+    fn coq_feat(f: &Feat) -> String {
+        match f {
+            Feat::Unit(fam, u, x) => format!("{} {} {}", ["FDistance", "FTime", "FEnergy"][*fam], unit_ctor(*fam, *u), coq_f64(*x)),
+            Feat::Custom(t, u, fm) => format!(
+                "FCustom {} {} ({})",
+                coq_string(t),
+                coq_string(u),
+                match fm {
+                    Fmt::F(x) => format!("FFloat {}", coq_f64(*x)),
+                    Fmt::I(z) => format!("FSigned {}", coq_z(*z as i128)),
+                    Fmt::U(z) => format!("FUnsigned {}", coq_z(*z as i128)),
+                    Fmt::B(b) => format!("FBool {}", coq_bool(*b)),
+                }
+            ),
+        }
+    }
+    fn coq_entries(l: &[(String, Feat)]) -> String {
+        coq_list(l, |(n, f)| format!("({}, {})", coq_string(n), coq_feat(f)))
+    }
+    fn coq_user(u: &User) -> String {
+        match u {
+            User::None => "UNone".into(),
+            User::Bad(_) => "UBad".into(),
+            User::Some(l) => format!("(USome {})", coq_entries(l)),
+        }
+    }
+    fn coq_uq(fam: usize, u: usize) -> String {
+        format!("({} {})", ["UD", "UT", "UE"][fam], unit_ctor(fam, u))
+    }
+    fn coq_op(o: &Op) -> String {
+        match o {
+            Op::Get(n, f, u) => format!("OGet {} {}", coq_string(n), coq_uq(*f, *u)),
+            Op::Set(n, f, u, x) => format!("OSet {} {} {}", coq_string(n), coq_uq(*f, *u), coq_f64(*x)),
+            Op::Add(n, f, u, x) => format!("OAdd {} {} {}", coq_string(n), coq_uq(*f, *u), coq_f64(*x)),
+            Op::Rt(n, f, u, x) => format!("ORt {} {} {}", coq_string(n), coq_uq(*f, *u), coq_f64(*x)),
+            Op::Ag(n, f, u, x) => format!("OAg {} {} {}", coq_string(n), coq_uq(*f, *u), coq_f64(*x)),
+            Op::GetF(n) => format!("OGetF {}", coq_string(n)),
+            Op::GetI(n) => format!("OGetI {}", coq_string(n)),
+            Op::GetU(n) => format!("OGetU {}", coq_string(n)),
+            Op::GetB(n) => format!("OGetB {}", coq_string(n)),
+            Op::SetF(n, x) => format!("OSetF {} {}", coq_string(n), coq_f64(*x)),
+            Op::SetI(n, z) => format!("OSetI {} {}", coq_string(n), coq_z(*z as i128)),
+            Op::SetU(n, z) => format!("OSetU {} {}", coq_string(n), coq_z(*z as i128)),
+            Op::SetB(n, b) => format!("OSetB {} {}", coq_string(n), coq_bool(*b)),
+        }
+    }
+
+    // ---------------------------------------------------------------- the implementation
+    fn to_feature(f: &Feat) -> StateFeature {
+        match f {
+            Feat::Unit(0, u, x) => StateFeature::Distance { distance_unit: DIST[*u].0, initial: Distance::new(*x) },
+            Feat::Unit(1, u, x) => StateFeature::Time { time_unit: TIME[*u].0, initial: Time::new(*x) },
+            Feat::Unit(_, u, x) => StateFeature::Energy { energy_unit: ENERGY[*u].0, initial: Energy::new(*x) },
+            Feat::Custom(t, u, fm) => StateFeature::Custom {
+                r#type: t.clone(),
+                unit: u.clone(),
+                format: match fm {
+                    Fmt::F(x) => CustomFeatureFormat::FloatingPoint { initial: ordered_float::OrderedFloat(*x) },
+                    Fmt::I(z) => CustomFeatureFormat::SignedInteger { initial: *z },
+                    Fmt::U(z) => CustomFeatureFormat::UnsignedInteger { initial: *z },
+                    Fmt::B(b) => CustomFeatureFormat::Boolean { initial: *b },
+                },
+            },
+        }
+    }
+    fn features(l: &[(String, Feat)]) -> Vec<(String, StateFeature)> {
+        l.iter().map(|(n, f)| (n.clone(), to_feature(f))).collect()
+    }
+    /// a JSON object of features in the serde form of StateFeature (what a config file / a query carries)
+    fn features_json(l: &[(String, Feat)]) -> Value {
+        let mut m = serde_json::Map::new();
+        for (n, f) in l {
+            m.insert(n.clone(), serde_json::to_value(to_feature(f)).unwrap());
+        }
+        Value::Object(m)
+    }
+
+    struct StubTraversal(Vec<(String, StateFeature)>);
+    impl TraversalModel for StubTraversal {
+        fn state_features(&self) -> Vec<(String, StateFeature)> {
+            self.0.clone()
+        }
+        fn traverse_edge(&self, _t: (&Vertex, &Edge, &Vertex), _s: &mut Vec<StateVar>, _sm: &StateModel) -> Result<(), TraversalModelError> {
+            Ok(())
+        }
+        fn estimate_traversal(&self, _od: (&Vertex, &Vertex), _s: &mut Vec<StateVar>, _sm: &StateModel) -> Result<(), TraversalModelError> {
+            Ok(())
+        }
+    }
+    struct StubAccess(Vec<(String, StateFeature)>);
+    impl AccessModel for StubAccess {
+        fn state_features(&self) -> Vec<(String, StateFeature)> {
+            self.0.clone()
+        }
+        fn access_edge(&self, _t: (&Vertex, &Edge, &Vertex, &Edge, &Vertex), _s: &mut Vec<StateVar>, _sm: &StateModel) -> Result<(), AccessModelError> {
+            Ok(())
+        }
+    }
+    struct TmService(Arc<StubTraversal>);
+    impl TraversalModelService for TmService {
+        fn build(&self, _q: &Value) -> Result<Arc<dyn TraversalModel>, TraversalModelError> {
+            Ok(self.0.clone())
+        }
+    }
+    struct AmService(Arc<StubAccess>);
+    impl AccessModelService for AmService {
+        fn build(&self, _q: &Value) -> Result<Arc<dyn AccessModel>, AccessModelError> {
+            Ok(self.0.clone())
+        }
+    }
+
+    fn class(e: &StateModelError) -> &'static str {
+        match e {
+            StateModelError::EncodeError(..) => "EncodeError",
+            StateModelError::DecodeError(..) => "DecodeError",
+            StateModelError::ValueError(..) => "ValueError",
+            StateModelError::UnknownStateVariableName(..) => "UnknownStateVariableName",
+            StateModelError::InvalidStateVariableIndex(..) => "InvalidStateVariableIndex",
+            StateModelError::UnexpectedFeatureType(..) => "UnexpectedFeatureType",
+            StateModelError::UnexpectedFeatureUnit(..) => "UnexpectedFeatureUnit",
+            StateModelError::BuildError(..) => "BuildError",
+            StateModelError::RuntimeError(..) => "RuntimeError",
+        }
+    }
+
+    fn query_of(c: &Case) -> Value {
+        match &c.user {
+            User::None => json!({}),
+            User::Bad(v) => json!({ "state_features": v }),
+            User::Some(l) => json!({ "state_features": features_json(l) }),
+        }
+    }
+
+    fn show_state(st: &[StateVar]) -> String {
+        show_list(st, |v| show_f64(v.0))
+    }
+    /// len / iteration order / slot of every probe name / initial state of one state model
+    fn show_struct(sm: &StateModel, probes: &[String]) -> (String, Result<Vec<StateVar>, String>) {
+        let names: Vec<String> = sm.iter().map(|(n, _)| n.clone()).collect();
+        // indexed_iter, get_names, contains_key, to_vec and serialize_state_model must tell the same story
+        let mut extra = String::new();
+        let by_index: Vec<String> = sm.indexed_iter().map(|(i, (n, _))| format!("{}@{}", n, i)).collect();
+        let expect: Vec<String> = names.iter().enumerate().map(|(i, n)| format!("{}@{}", n, i)).collect();
+        if by_index != expect || sm.get_names() != names.join(",") {
+            extra += " INCONSISTENT(indexed_iter/get_names)";
+        }
+        let ser = sm.serialize_state_model();
+        for p in probes {
+            let k = sm.contains_key(p);
+            let i = ser.get(p).and_then(|f| f.get("index")).and_then(|x| x.as_u64());
+            let pos = names.iter().position(|n| n == p);
+            if k != pos.is_some() || i != pos.map(|x| x as u64) {
+                extra += &format!(" INCONSISTENT(contains_key/serialize_state_model {})", p);
+            }
+        }
+        // get_index has no public accessor on StateModel: the slot of a name is observed by writing a marker
+        // through the public API into a vector of len() + 2 cells and looking where it landed
+        let idx: Vec<String> = probes.iter().map(|p| show_opt(&slot_of(sm, p), |i| i.to_string())).collect();
+        let init = sm.initial_state().map_err(|e| class(&e).to_string());
+        let init_s = match &init {
+            Ok(st) => format!("Ok {}", show_state(st)),
+            Err(c) => format!("Err {}", c),
+        };
+        (
+            format!("R=Ok len={} names=[{}] idx=[{}] init={}{}", sm.len(), names.join(","), idx.join(","), init_s, extra),
+            init,
+        )
+    }
+    /// state-vector slot that reads and writes of `name` go to, observed through the public accessors
+    fn slot_of(sm: &StateModel, name: &String) -> Option<usize> {
+        let n = sm.len() + 2;
+        let mut found: Option<usize> = None;
+        for i in 0..n {
+            let mut st = vec![StateVar(0.0); n];
+            st[i] = StateVar(1.0);
+            match sm.get_delta(&vec![StateVar(0.0); n], &st, name) {
+                Ok(d) if d.0 == 1.0 => {
+                    if found.is_some() {
+                        return Some(usize::MAX);
+                    }
+                    found = Some(i);
+                }
+                _ => {}
+            }
+        }
+        found
+    }
+
+    enum Val {
+        None,
+        F(f64),
+        FF(f64, f64),
+        Z(i128),
+        B(bool),
+    }
+    struct Obs {
+        r: Result<Val, String>, // Err(class) | Err("Panic")
+        st: Vec<StateVar>,
+    }
+    fn show_obs(o: &Obs) -> String {
+        let r = match &o.r {
+            Ok(Val::None) => "Ok -".to_string(),
+            Ok(Val::F(y)) => format!("Ok {}", show_f64(*y)),
+            Ok(Val::FF(a, b)) => format!("Ok {} {}", show_f64(*a), show_f64(*b)),
+            Ok(Val::Z(z)) => format!("Ok {}", z),
+            Ok(Val::B(b)) => format!("Ok {}", show_bool(*b)),
+            Err(c) if c == "Panic" => "Panic".to_string(),
+            Err(c) => format!("Err {}", c),
+        };
+        format!("{} st={}", r, show_state(&o.st))
+    }
+    fn coq_obs(o: &Obs) -> String {
+        let r = match &o.r {
+            Ok(Val::None) => "Ok VNone".to_string(),
+            Ok(Val::F(y)) => format!("Ok (VF {})", coq_f64(*y)),
+            Ok(Val::FF(a, b)) => format!("Ok (VFF {} {})", coq_f64(*a), coq_f64(*b)),
+            Ok(Val::Z(z)) => format!("Ok (VZ {})", coq_z(*z)),
+            Ok(Val::B(b)) => format!("Ok (VB {})", coq_bool(*b)),
+            Err(c) if c == "Panic" => "Panic \"\"%string".to_string(),
+            Err(c) => format!("Err {}", coq_string(c)),
+        };
+        format!("Obs ({}) {}", r, coq_list(&o.st, |v| coq_f64(v.0)))
+    }
+
+    type R<T> = Result<T, StateModelError>;
+    fn get_u(sm: &StateModel, st: &[StateVar], n: &String, fam: usize, u: usize) -> R<f64> {
+        match fam {
+            0 => sm.get_distance(st, n, &DIST[u].0).map(|x| x.as_f64()),
+            1 => sm.get_time(st, n, &TIME[u].0).map(|x| x.as_f64()),
+            _ => sm.get_energy(st, n, &ENERGY[u].0).map(|x| x.as_f64()),
+        }
+    }
+    fn set_u(sm: &StateModel, st: &mut [StateVar], n: &String, fam: usize, u: usize, x: f64) -> R<()> {
+        match fam {
+            0 => sm.set_distance(st, n, &Distance::new(x), &DIST[u].0),
+            1 => sm.set_time(st, n, &Time::new(x), &TIME[u].0),
+            _ => sm.set_energy(st, n, &Energy::new(x), &ENERGY[u].0),
+        }
+    }
+    fn add_u(sm: &StateModel, st: &mut [StateVar], n: &String, fam: usize, u: usize, x: f64) -> R<()> {
+        match fam {
+            0 => sm.add_distance(st, n, &Distance::new(x), &DIST[u].0),
+            1 => sm.add_time(st, n, &Time::new(x), &TIME[u].0),
+            _ => sm.add_energy(st, n, &Energy::new(x), &ENERGY[u].0),
+        }
+    }
+    fn run_op(sm: &StateModel, st: &mut Vec<StateVar>, o: &Op) -> Result<Val, StateModelError> {
+        Ok(match o {
+            Op::Get(n, f, u) => Val::F(get_u(sm, st, n, *f, *u)?),
+            Op::Set(n, f, u, x) => {
+                set_u(sm, st, n, *f, *u, *x)?;
+                Val::None
+            }
+            Op::Add(n, f, u, x) => {
+                add_u(sm, st, n, *f, *u, *x)?;
+                Val::None
+            }
+            Op::Rt(n, f, u, x) => {
+                set_u(sm, st, n, *f, *u, *x)?;
+                Val::F(get_u(sm, st, n, *f, *u)?)
+            }
+            Op::Ag(n, f, u, x) => {
+                let y0 = get_u(sm, st, n, *f, *u)?;
+                add_u(sm, st, n, *f, *u, *x)?;
+                Val::FF(y0, get_u(sm, st, n, *f, *u)?)
+            }
+            Op::GetF(n) => Val::F(sm.get_custom_f64(st, n)?),
+            Op::GetI(n) => Val::Z(sm.get_custom_i64(st, n)? as i128),
+            Op::GetU(n) => Val::Z(sm.get_custom_u64(st, n)? as i128),
+            Op::GetB(n) => Val::B(sm.get_custom_bool(st, n)?),
+            Op::SetF(n, x) => {
+                sm.set_custom_f64(st, n, x)?;
+                Val::None
+            }
+            Op::SetI(n, z) => {
+                sm.set_custom_i64(st, n, z)?;
+                Val::None
+            }
+            Op::SetU(n, z) => {
+                sm.set_custom_u64(st, n, z)?;
+                Val::None
+            }
+            Op::SetB(n, b) => {
+                sm.set_custom_bool(st, n, b)?;
+                Val::None
+            }
+        })
+    }
+
+    fn empty_graph() -> Graph {
+        Graph { adj: vec![].into_boxed_slice(), rev: vec![].into_boxed_slice(), edges: vec![].into_boxed_slice(), vertices: vec![].into_boxed_slice() }
+    }
+
+    /// the per-query state model through the real code, two ways:
+    ///   direct  StateModel::try_from(config JSON) . extend(collect_features(query, traversal model, access model))
+    ///   app     SearchApp::new(..).build_search_instance(query).state_model
+    /// returns the I payload and the observations of the op sequence
+    fn run_impl(c: &Case, probes: &[String]) -> (String, Vec<Obs>) {
+        let tm = Arc::new(StubTraversal(features(&c.tm)));
+        let am = Arc::new(StubAccess(features(&c.am)));
+        let query = query_of(c);
+        let configured = match StateModel::try_from(&features_json(&c.cfg)) {
+            Ok(m) => Arc::new(m),
+            Err(e) => return (format!("R=Err config:{}", class(&e)), vec![]),
+        };
+        let direct: Result<StateModel, String> = match catch(AssertUnwindSafe(|| {
+            collect_features(&query, tm.clone(), am.clone()).and_then(|fs| configured.extend(fs))
+        })) {
+            Err(_) => Err("Panic".into()),
+            Ok(Err(e)) => Err(class(&e).to_string()),
+            Ok(Ok(m)) => Ok(m),
+        };
+        let (direct_s, init) = match &direct {
+            Ok(m) => {
+                let (s, i) = show_struct(m, probes);
+                (s, Some(i))
+            }
+            Err(cl) if cl == "Panic" => ("R=Panic".to_string(), None),
+            Err(cl) => (format!("R=Err {}", cl), None),
+        };
+        // the same through SearchApp::build_search_instance; the cost model needs one weighted feature
+        let mut app_query = query.clone();
+        let first = direct.as_ref().ok().and_then(|m| m.iter().next().map(|(n, _)| n.clone()));
+        let mut payload = direct_s.clone();
+        let mut model: Option<Arc<StateModel>> = direct.ok().map(Arc::new);
+        if first.is_some() || model.is_none() {
+            if let Some(n) = &first {
+                app_query["weights"] = json!({ n.clone(): 1.0 });
+            }
+            let app = SearchApp::new(
+                SearchAlgorithm::Dijkstra,
+                empty_graph(),
+                configured.clone(),
+                Arc::new(TmService(tm.clone())),
+                Arc::new(AmService(am.clone())),
+                CostModelService {
+                    vehicle_rates: Arc::new(HashMap::new()),
+                    network_rates: Arc::new(HashMap::new()),
+                    weights: Arc::new(HashMap::new()),
+                    cost_aggregation: CostAggregation::Sum,
+                    ignore_unknown_weights: true,
+                },
+                Arc::new(NoRestriction {}),
+                TerminationModel::IterationsLimit { limit: 1 },
+            );
+            let via_app = match catch(AssertUnwindSafe(|| app.build_search_instance(&app_query))) {
+                Err(_) => "R=Panic".to_string(),
+                Ok(Err(SearchError::StateFailure { source })) => format!("R=Err {}", class(&source)),
+                Ok(Err(e)) => format!("R=Err other:{}", e),
+                Ok(Ok(si)) => {
+                    let s = show_struct(&si.state_model, probes).0;
+                    model = Some(si.state_model.clone());
+                    s
+                }
+            };
+            if via_app != direct_s {
+                payload += &format!(" APPDIFF({})", via_app);
+            }
+        }
+        let mut obs = vec![];
+        if let (Some(sm), Some(Ok(init))) = (model, init) {
+            let mut st = init;
+            let mut parts = vec![payload];
+            for o in &c.ops {
+                let mut work = st.clone();
+                let r = catch(AssertUnwindSafe(|| run_op(&sm, &mut work, o)));
+                let ob = match r {
+                    Err(_) => Obs { r: Err("Panic".into()), st: work },
+                    Ok(Err(e)) => Obs { r: Err(class(&e).to_string()), st: work },
+                    Ok(Ok(v)) => Obs { r: Ok(v), st: work },
+                };
+                st = ob.st.clone();
+                parts.push(show_obs(&ob));
+                obs.push(ob);
+            }
+            payload = parts.join(" | ");
+        }
+        (payload, obs)
+    }
+
+    // ---------------------------------------------------------------- cases
+    fn final_def(c: &Case) -> Vec<(String, Feat)> {
+        // for generating meaningful operations only (never used for a verdict)
+        let mut out: Vec<(String, Feat)> = vec![];
+        let user: Vec<(String, Feat)> = if let User::Some(l) = &c.user { l.clone() } else { vec![] };
+        for (n, f) in c.cfg.iter().chain(c.tm.iter()).chain(c.am.iter()).chain(user.iter()) {
+            if let Some(e) = out.iter_mut().find(|(m, _)| m == n) {
+                e.1 = f.clone();
+            } else {
+                out.push((n.clone(), f.clone()));
+            }
+        }
+        out
+    }
+
+    fn add_case(st: &mut Stream, c: Case, family: &str) {
+        let id = st.next_id();
+        let mut probes: Vec<String> = NAMES.iter().map(|s| s.to_string()).collect();
+        probes.push(GHOST.to_string());
+        let cc = c.clone();
+        let pp = probes.clone();
+        let (payload, obs) = catch(AssertUnwindSafe(move || run_impl(&cc, &pp))).unwrap_or_else(|e| (format!("PANIC {}", e), vec![]));
+        let args = format!(
+            "{} {} {} {} {} {}",
+            coq_entries(&c.cfg),
+            coq_entries(&c.tm),
+            coq_entries(&c.am),
+            coq_user(&c.user),
+            coq_list(&probes, |p| coq_string(p)),
+            coq_list(&c.ops, |o| format!("({})", coq_op(o)))
+        );
+        let terms = vec![
+            format!("line_state_m {} {}", id, args),
+            format!("line_state_s {} {} {}", id, args, coq_list(&obs, coq_obs)),
+        ];
+        let fin = final_def(&c);
+        let defs = c.cfg.len() + c.tm.len() + c.am.len() + if let User::Some(l) = &c.user { l.len() } else { 0 };
+        st.count(&format!("family:{}", family));
+        st.count(&format!("features:{}", fin.len().min(12)));
+        st.count(&format!("cfg:{}", c.cfg.len()));
+        st.count(&format!("model_features:{}", c.tm.len() + c.am.len()));
+        st.count(&format!("user:{}", match &c.user { User::None => "none".to_string(), User::Bad(_) => "bad".to_string(), User::Some(l) => format!("{}", l.len()) }));
+        st.count(&format!("result:{}", payload.split(' ').next().unwrap_or("")));
+        if payload.starts_with("R=Err") {
+            st.count(&format!("error:{}", payload));
+        }
+        st.count(&format!("ops:{}", c.ops.len()));
+        for (_, f) in &fin {
+            st.count(match f {
+                Feat::Unit(0, _, _) => "kind:distance",
+                Feat::Unit(1, _, _) => "kind:time",
+                Feat::Unit(_, _, _) => "kind:energy",
+                Feat::Custom(_, _, Fmt::F(_)) => "kind:custom_float",
+                Feat::Custom(_, _, Fmt::I(_)) => "kind:custom_signed",
+                Feat::Custom(_, _, Fmt::U(_)) => "kind:custom_unsigned",
+                Feat::Custom(_, _, Fmt::B(_)) => "kind:custom_bool",
+            });
+        }
+        let redefined = defs > fin.len();
+        if redefined {
+            st.count("has_redefinition");
+        }
+        if let User::Some(l) = &c.user {
+            for (n, _) in l {
+                let in_cfg = c.cfg.iter().any(|(m, _)| m == n);
+                let in_model = c.tm.iter().chain(c.am.iter()).any(|(m, _)| m == n);
+                st.count(match (in_cfg, in_model) {
+                    (false, true) => "override:model_contributed",
+                    (true, true) => "override:configured_and_model",
+                    (true, false) => "override:configured_only",
+                    (false, false) => "override:unknown",
+                });
+            }
+        }
+        if c.tm.iter().any(|(n, _)| c.am.iter().any(|(m, _)| m == n)) {
+            st.count("both_models_same_name");
+        }
+        if fin.len() >= 5 {
+            st.count("crosses_4_to_5");
+        }
+        if fin.len() >= 5 || redefined {
+            st.mark_nontrivial(&case_json(&c).to_string());
+        }
+        let mut desc = case_json(&c);
+        desc["id"] = json!(id);
+        desc["family"] = json!(family);
+        st.case(terms, vec![format!("I {} {}", id, payload)], desc);
+    }
+
+    fn s(x: &str) -> String {
+        x.to_string()
+    }
+    fn d(u: usize, x: f64) -> Feat {
+        Feat::Unit(0, u, x)
+    }
+    fn t(u: usize, x: f64) -> Feat {
+        Feat::Unit(1, u, x)
+    }
+    fn e(u: usize, x: f64) -> Feat {
+        Feat::Unit(2, u, x)
+    }
+    fn cu(ty: &str, unit: &str, f: Fmt) -> Feat {
+        Feat::Custom(s(ty), s(unit), f)
+    }
+
+    fn gen_value(r: &mut Rng) -> f64 {
+        match r.below(10) {
+            0 => 0.0,
+            1 => 1.0,
+            2 => 2.5,
+            3 => 100.0,
+            4 => -3.0,
+            5 => 0.001,
+            6 => 12345.678,
+            _ => {
+                let mag = 10f64.powf(r.unit_f64() * 12.0 - 4.0);
+                let v = mag * (0.5 + r.unit_f64());
+                if r.chance(1, 5) {
+                    -v
+                } else {
+                    v
+                }
+            }
+        }
+    }
+    fn gen_int(r: &mut Rng, signed: bool) -> i64 {
+        let v = match r.below(6) {
+            0 => 0,
+            1 => 1,
+            2 => r.range(0, 1000),
+            3 => r.range(0, 1 << 40),
+            4 => (1i64 << 53) - r.range(0, 2),
+            _ => r.range(0, (1i64 << 62) - 1),
+        };
+        if signed && r.chance(1, 3) {
+            -v
+        } else {
+            v
+        }
+    }
+    fn gen_fmt(r: &mut Rng) -> Fmt {
+        match r.below(4) {
+            0 => Fmt::F(gen_value(r)),
+            1 => Fmt::I(gen_int(r, true)),
+            2 => Fmt::U(gen_int(r, false) as u64),
+            _ => Fmt::B(r.chance(1, 2)),
+        }
+    }
+    fn fam_units(fam: usize) -> usize {
+        [5, 4, 3][fam]
+    }
+    fn gen_feat(r: &mut Rng) -> Feat {
+        match r.below(5) {
+            0 => d(r.below(5) as usize, gen_value(r)),
+            1 => t(r.below(4) as usize, gen_value(r)),
+            2 => e(r.below(3) as usize, gen_value(r)),
+            _ => {
+                let ty = *r.pick(&["soc", "flag", "count", "distance", "time"]);
+                let unit = *r.pick(&["percent", "none", "items"]);
+                cu(ty, unit, gen_fmt(r))
+            }
+        }
+    }
+    /// another definition of the same kind (what StateFeature's equality accepts): other unit / initial / format
+    fn gen_same_kind(r: &mut Rng, f: &Feat) -> Feat {
+        match f {
+            Feat::Unit(fam, _, _) => Feat::Unit(*fam, r.below(fam_units(*fam) as u64) as usize, gen_value(r)),
+            Feat::Custom(ty, unit, fm) => Feat::Custom(
+                ty.clone(),
+                unit.clone(),
+                if r.chance(3, 4) {
+                    match fm {
+                        Fmt::F(_) => Fmt::F(gen_value(r)),
+                        Fmt::I(_) => Fmt::I(gen_int(r, true)),
+                        Fmt::U(_) => Fmt::U(gen_int(r, false) as u64),
+                        Fmt::B(b) => Fmt::B(!*b),
+                    }
+                } else {
+                    gen_fmt(r)
+                },
+            ),
+        }
+    }
+    /// operations that make sense for the final definition of each name, plus a few that do not
+    fn gen_ops(r: &mut Rng, c: &Case, n: usize) -> Vec<Op> {
+        let fin = final_def(c);
+        let mut ops = vec![];
+        for _ in 0..n {
+            let (name, feat): (String, Option<Feat>) = if fin.is_empty() || r.chance(1, 12) {
+                (if r.chance(1, 2) { s(GHOST) } else { s(*r.pick(&NAMES)) }, None)
+            } else {
+                let (n, f) = r.pick(&fin).clone();
+                (n, Some(f))
+            };
+            let wrong = r.chance(1, 10);
+            let op = match (&feat, wrong) {
+                (Some(Feat::Unit(fam, _, _)), false) => {
+                    let u = r.below(fam_units(*fam) as u64) as usize;
+                    let x = gen_value(r);
+                    match r.below(5) {
+                        0 => Op::Get(name, *fam, u),
+                        1 => Op::Set(name, *fam, u, x),
+                        2 => Op::Add(name, *fam, u, x),
+                        3 => Op::Rt(name, *fam, u, x),
+                        _ => Op::Ag(name, *fam, u, x),
+                    }
+                }
+                (Some(Feat::Custom(_, _, fm)), false) => match (fm, r.chance(1, 2)) {
+                    (Fmt::F(_), true) => Op::GetF(name),
+                    (Fmt::F(_), false) => Op::SetF(name, gen_value(r)),
+                    (Fmt::I(_), true) => Op::GetI(name),
+                    (Fmt::I(_), false) => Op::SetI(name, gen_int(r, true)),
+                    (Fmt::U(_), true) => Op::GetU(name),
+                    (Fmt::U(_), false) => Op::SetU(name, gen_int(r, false) as u64),
+                    (Fmt::B(_), true) => Op::GetB(name),
+                    (Fmt::B(_), false) => Op::SetB(name, r.chance(1, 2)),
+                },
+                _ => {
+                    // any operation on any name: wrong family, wrong codec, unknown name
+                    let fam = r.below(3) as usize;
+                    let u = r.below(fam_units(fam) as u64) as usize;
+                    match r.below(12) {
+                        0 => Op::Get(name, fam, u),
+                        1 => Op::Set(name, fam, u, gen_value(r)),
+                        2 => Op::Add(name, fam, u, gen_value(r)),
+                        3 => Op::Rt(name, fam, u, gen_value(r)),
+                        4 => Op::GetF(name),
+                        5 => Op::GetI(name),
+                        6 => Op::GetU(name),
+                        7 => Op::GetB(name),
+                        8 => Op::SetF(name, gen_value(r)),
+                        9 => Op::SetI(name, gen_int(r, true)),
+                        10 => Op::SetU(name, gen_int(r, false) as u64),
+                        _ => Op::SetB(name, r.chance(1, 2)),
+                    }
+                }
+            };
+            ops.push(op);
+        }
+        ops
+    }
+    /// one round trip and one add on every unit-ful feature, one codec round trip on every custom feature
+    fn probe_ops(c: &Case) -> Vec<Op> {
+        let mut ops = vec![];
+        for (i, (n, f)) in final_def(c).iter().enumerate() {
+            match f {
+                Feat::Unit(fam, u, _) => {
+                    let other = (u + 1 + i) % fam_units(*fam);
+                    ops.push(Op::Rt(n.clone(), *fam, other, 2.5 + i as f64));
+                    ops.push(Op::Ag(n.clone(), *fam, *u, 0.5));
+                }
+                Feat::Custom(_, _, Fmt::F(_)) => {
+                    ops.push(Op::SetF(n.clone(), 55.5));
+                    ops.push(Op::GetF(n.clone()));
+                }
+                Feat::Custom(_, _, Fmt::I(_)) => {
+                    ops.push(Op::SetI(n.clone(), -7));
+                    ops.push(Op::GetI(n.clone()));
+                }
+                Feat::Custom(_, _, Fmt::U(_)) => {
+                    ops.push(Op::SetU(n.clone(), 9));
+                    ops.push(Op::GetU(n.clone()));
+                }
+                Feat::Custom(_, _, Fmt::B(b)) => {
+                    ops.push(Op::SetB(n.clone(), !*b));
+                    ops.push(Op::GetB(n.clone()));
+                }
+            }
+        }
+        ops
+    }
+    fn with_probe_ops(mut c: Case) -> Case {
+        c.ops = probe_ops(&c);
+        c
+    }
+
+    fn boundary(st: &mut Stream) {
+        let case = |cfg: Vec<(String, Feat)>, tm: Vec<(String, Feat)>, am: Vec<(String, Feat)>, user: User| Case { cfg, tm, am, user, ops: vec![] };
+        // a query overrides a feature contributed by the traversal model and not declared in configuration
+        add_case(
+            st,
+            with_probe_ops(case(vec![(s("distance"), d(1, 3.0))], vec![(s("time"), t(1, 0.0))], vec![], User::Some(vec![(s("time"), t(0, 2.0))]))),
+            "override_model_contributed",
+        );
+        add_case(
+            st,
+            with_probe_ops(case(vec![], vec![(s("distance"), d(1, 0.0)), (s("time"), t(1, 0.0))], vec![], User::Some(vec![(s("time"), t(0, 2.0))]))),
+            "override_model_contributed",
+        );
+        // the four features of an electric vehicle model, the query sets the starting time and state of charge
+        let bev = vec![
+            (s("distance"), d(1, 0.0)),
+            (s("time"), t(1, 0.0)),
+            (s("energy_electric"), e(2, 0.0)),
+            (s("battery_state"), cu("soc", "percent", Fmt::F(100.0))),
+        ];
+        add_case(
+            st,
+            with_probe_ops(case(vec![], bev.clone(), vec![], User::Some(vec![(s("time"), t(0, 2.0)), (s("battery_state"), cu("soc", "percent", Fmt::F(55.0)))]))),
+            "override_initial_values",
+        );
+        add_case(st, with_probe_ops(case(vec![], bev.clone(), vec![], User::None)), "override_initial_values");
+        add_case(st, with_probe_ops(case(vec![], bev.clone(), vec![], User::Some(vec![(s("battery_state"), cu("soc", "percent", Fmt::F(55.0)))]))), "override_initial_values");
+        add_case(st, with_probe_ops(case(vec![], bev.clone(), vec![], User::Some(vec![(s("distance"), d(2, 1.5))]))), "override_initial_values");
+        // growth across the small-size specialisations: n configured features, k contributed by the models, with and without an override
+        let pool: Vec<(String, Feat)> = vec![
+            (s("distance"), d(1, 0.0)),
+            (s("time"), t(1, 0.5)),
+            (s("energy_electric"), e(2, 0.25)),
+            (s("battery_state"), cu("soc", "percent", Fmt::F(100.0))),
+            (s("trip_distance"), d(2, 1.0)),
+            (s("trip_time"), t(0, 0.0)),
+            (s("leg_energy"), e(0, 2.0)),
+            (s("flag"), cu("flag", "none", Fmt::B(false))),
+            (s("count"), cu("count", "items", Fmt::I(-4))),
+            (s("odo"), cu("count", "items", Fmt::U(17))),
+        ];
+        for n in 0..=7usize {
+            for k in 0..=3usize {
+                if n + k > pool.len() {
+                    continue;
+                }
+                let cfg = pool[..n].to_vec();
+                let tm = pool[n..n + k].to_vec();
+                add_case(st, with_probe_ops(case(cfg.clone(), tm.clone(), vec![], User::None)), "grow");
+                if k > 0 {
+                    let (name, f) = tm[k - 1].clone();
+                    let mut r = Rng::new((n * 10 + k) as u64);
+                    add_case(st, with_probe_ops(case(cfg.clone(), tm.clone(), vec![], User::Some(vec![(name, gen_same_kind(&mut r, &f))]))), "grow_override_last");
+                    // the access model contributes the last one again, the traversal model the others
+                    add_case(st, with_probe_ops(case(cfg.clone(), tm.clone(), vec![tm[k - 1].clone()], User::None)), "grow_both_models");
+                }
+            }
+        }
+        // override at every position of a model of 1..8 model-contributed features
+        for n in 1..=8usize {
+            for p in 0..n {
+                let tm = pool[..n].to_vec();
+                let mut r = Rng::new((n * 100 + p) as u64);
+                let (name, f) = tm[p].clone();
+                add_case(st, with_probe_ops(case(vec![], tm.clone(), vec![], User::Some(vec![(name.clone(), gen_same_kind(&mut r, &f))]))), "override_each_position");
+                // a configured feature at position p that a model declares again (other unit), then overridden by the query
+                let mut am_def = gen_same_kind(&mut r, &f);
+                if p % 2 == 0 {
+                    am_def = f.clone();
+                }
+                add_case(
+                    st,
+                    with_probe_ops(case(tm.clone(), vec![], vec![(name.clone(), am_def.clone())], User::Some(vec![(name.clone(), gen_same_kind(&mut r, &f))]))),
+                    "configured_redeclared_overridden",
+                );
+            }
+        }
+        // the same name contributed by both models
+        add_case(st, with_probe_ops(case(vec![], vec![(s("time"), t(1, 0.0)), (s("distance"), d(0, 0.0))], vec![(s("time"), t(2, 30.0))], User::None)), "both_models");
+        add_case(
+            st,
+            with_probe_ops(case(vec![], vec![(s("time"), t(1, 0.0)), (s("distance"), d(0, 0.0))], vec![(s("time"), t(2, 30.0))], User::Some(vec![(s("time"), t(0, 1.0))]))),
+            "both_models",
+        );
+        add_case(st, with_probe_ops(case(vec![], vec![(s("time"), t(1, 0.0))], vec![(s("time"), d(0, 7.0))], User::None)), "both_models_other_kind");
+        add_case(st, with_probe_ops(case(vec![], vec![(s("time"), t(1, 0.0)), (s("time"), t(3, 9.0)), (s("odo"), d(4, 1.0))], vec![], User::None)), "declared_twice_by_one_model");
+        // refused queries
+        let base = case(vec![(s("distance"), d(1, 0.0))], vec![(s("time"), t(1, 0.0)), (s("soc"), cu("soc", "percent", Fmt::F(80.0)))], vec![], User::None);
+        let with_user = |u: User| {
+            let mut c = base.clone();
+            c.user = u;
+            with_probe_ops(c)
+        };
+        add_case(st, with_user(User::Some(vec![(s(GHOST), t(1, 0.0))])), "refused_unknown_name");
+        add_case(st, with_user(User::Some(vec![(s("distance"), d(0, 5.0))])), "refused_configured_only");
+        add_case(st, with_user(User::Some(vec![(s("time"), d(0, 5.0))])), "refused_other_type");
+        add_case(st, with_user(User::Some(vec![(s("soc"), cu("charge", "percent", Fmt::F(1.0)))])), "refused_other_type");
+        add_case(st, with_user(User::Some(vec![(s("time"), cu("time", "none", Fmt::F(1.0)))])), "refused_custom_named_like_builtin");
+        add_case(st, with_user(User::Some(vec![(s("soc"), cu("soc", "fraction", Fmt::F(0.8)))])), "refused_other_custom_unit");
+        add_case(st, with_user(User::Some(vec![(s("soc"), cu("soc", "percent", Fmt::B(true)))])), "override_custom_format");
+        add_case(st, with_user(User::Bad(json!(17))), "refused_unparsable");
+        add_case(st, with_user(User::Bad(json!({"time": {"speed_unit": "mph"}}))), "refused_unparsable");
+        add_case(st, with_user(User::Some(vec![])), "empty_override");
+        add_case(st, with_probe_ops(case(vec![(s("time"), d(0, 1.0))], vec![(s("time"), t(1, 0.0))], vec![], User::None)), "refused_model_replaces_other_kind");
+        // accessors that must fail: unknown name, wrong family, wrong codec, negative unsigned
+        let mut c = case(pool[..9].to_vec(), vec![(s("odo"), cu("count", "items", Fmt::U(17)))], vec![], User::None);
+        c.ops = vec![
+            Op::Get(s(GHOST), 0, 0),
+            Op::Set(s(GHOST), 1, 0, 1.0),
+            Op::Add(s(GHOST), 2, 0, 1.0),
+            Op::GetF(s(GHOST)),
+            Op::SetB(s(GHOST), true),
+            Op::Get(s("time"), 0, 0),
+            Op::Set(s("distance"), 1, 0, 1.0),
+            Op::Add(s("battery_state"), 2, 0, 1.0),
+            Op::GetF(s("distance")),
+            Op::SetF(s("time"), 1.0),
+            Op::GetI(s("battery_state")),
+            Op::SetI(s("flag"), 3),
+            Op::GetB(s("count")),
+            Op::SetU(s("count"), 3),
+            Op::SetF(s("odo"), -2.5),
+            Op::GetU(s("odo")),
+            Op::SetI(s("count"), -(1i64 << 53) - 1),
+            Op::GetI(s("count")),
+            Op::SetU(s("odo"), (1u64 << 62) + 1),
+            Op::GetU(s("odo")),
+            Op::SetF(s("battery_state"), 3.99),
+            Op::GetF(s("battery_state")),
+            Op::SetB(s("flag"), true),
+            Op::GetB(s("flag")),
+            Op::Rt(s("trip_distance"), 0, 2, 12.5),
+            Op::Rt(s("trip_distance"), 0, 4, 12.5),
+            Op::Ag(s("leg_energy"), 2, 2, 3.0),
+        ];
+        add_case(st, c, "accessor_errors_and_codecs");
+    }
+
+    fn random_case(r: &mut Rng) -> Case {
+        let mut names: Vec<String> = NAMES.iter().map(|x| x.to_string()).collect();
+        r.shuffle(&mut names);
+        let n_cfg = match r.below(4) {
+            0 => r.below(3),
+            1 => r.below(6),
+            _ => r.below(10),
+        } as usize;
+        let mut current: Vec<(String, Feat)> = vec![];
+        let mut cfg = vec![];
+        for n in names.iter().take(n_cfg) {
+            let f = gen_feat(r);
+            cfg.push((n.clone(), f.clone()));
+            current.push((n.clone(), f));
+        }
+        let mut declare = |r: &mut Rng, current: &mut Vec<(String, Feat)>, k: usize| -> Vec<(String, Feat)> {
+            let mut out = vec![];
+            for _ in 0..k {
+                // a new name, or one that is already defined (configured, or declared by a model)
+                let reuse = !current.is_empty() && r.chance(1, 3);
+                let (name, f) = if reuse {
+                    let (n, old) = r.pick(current).clone();
+                    let f = if r.chance(9, 10) { gen_same_kind(r, &old) } else { gen_feat(r) };
+                    (n, f)
+                } else {
+                    (r.pick(&names).clone(), gen_feat(r))
+                };
+                let f = match current.iter().find(|(m, _)| *m == name) {
+                    Some((_, old)) if !reuse && r.chance(9, 10) => gen_same_kind(r, old),
+                    _ => f,
+                };
+                if let Some(e) = current.iter_mut().find(|(m, _)| *m == name) {
+                    e.1 = f.clone();
+                } else {
+                    current.push((name.clone(), f.clone()));
+                }
+                out.push((name, f));
+            }
+            out
+        };
+        let k_tm = r.below(5) as usize;
+        let tm = declare(r, &mut current, k_tm);
+        let k_am = r.below(3) as usize;
+        let am = declare(r, &mut current, k_am);
+        let model_names: Vec<String> = tm.iter().chain(am.iter()).map(|(n, _)| n.clone()).collect();
+        let user = match r.below(20) {
+            0..=5 => User::None,
+            6 => User::Bad(if r.chance(1, 2) { json!("time") } else { json!({"time": {"unit": 3}}) }),
+            _ => {
+                let mut l: Vec<(String, Feat)> = vec![];
+                let k = r.below(4) as usize;
+                let mut bad_used = false;
+                for _ in 0..k {
+                    let roll = r.below(20);
+                    let (name, f) = if !model_names.is_empty() && roll < 15 {
+                        // a valid override of something a model declares
+                        let n = r.pick(&model_names).clone();
+                        let old = current.iter().find(|(m, _)| *m == n).unwrap().1.clone();
+                        (n, gen_same_kind(r, &old))
+                    } else if bad_used {
+                        continue;
+                    } else {
+                        bad_used = true;
+                        match roll {
+                            15 | 16 => (s(GHOST), gen_feat(r)),
+                            17 => match cfg.iter().find(|(n, _)| !model_names.contains(n)) {
+                                Some((n, f)) => (n.clone(), gen_same_kind(r, f)),
+                                None => (s(GHOST), gen_feat(r)),
+                            },
+                            _ => {
+                                if model_names.is_empty() {
+                                    (s(GHOST), gen_feat(r))
+                                } else {
+                                    (r.pick(&model_names).clone(), gen_feat(r))
+                                }
+                            }
+                        }
+                    };
+                    if l.iter().all(|(m, _)| *m != name) {
+                        l.push((name, f));
+                    }
+                }
+                User::Some(l)
+            }
+        };
+        let mut c = Case { cfg, tm, am, user, ops: vec![] };
+        let n_ops = r.below(9) as usize;
+        c.ops = gen_ops(r, &c, n_ops);
+        c
+    }
+
+    pub fn main(a: Args) {
+        let header = "From Coq Require Import ZArith List String Floats.\nFrom RC Require Import Base.Show Base.Res Model.Units Model.StateModel Model.StateModelRun.\nImport ListNotations.\nImport Units SM SMRun.\nOpen Scope Z_scope.";
+        let mut st = Stream::new(&a.out, "state", header, a.shards);
+        if let Some(p) = &a.replay {
+            st.full = true;
+            let v: Value = serde_json::from_str(&std::fs::read_to_string(p).unwrap()).unwrap();
+            add_case(&mut st, case_from(&v["case"]), "replay");
+            st.finish();
+            return;
+        }
+        boundary(&mut st);
+        let mut rng = Rng::new(a.seed ^ 0x5717_A7E5);
+        while st.next_id() < a.n {
+            let mut r = rng.fork();
+            let c = random_case(&mut r);
+            add_case(&mut st, c, "random");
+        }
+        st.finish();
     }
 }
